@@ -10,7 +10,8 @@ CHECKS = {
    text='Cache.tla states the cache semantics C09 requires; TLC checks the five C09 invariants exhaustively over all operation sequences '
         'to depth 3/4 with boundary lengths (0..70000 across the 16-bit boundary), limits and capacities; every transition of the bounded '
         'model is replayed on the real cache.Cache and seeded random sequences are recorded; every real operation is judged by TLC against '
-        'the C09 predicates (CacheTrace.tla) from its own logged pre-state.',
+        'the C09 predicates (CacheTrace.tla) from its own logged pre-state.'
+        ' CacheInd.tla additionally shows Consistent to be an inductive invariant: every operation from EVERY consistent cache of a bounded universe (not only reachable ones), the same steps executed on real caches built in those states.',
    design_ref='DESIGN.md section 6 (C09)',
    note='Trusted: TLC, the Go recorder\'s projection of cache.Cache (exported fields), value abstraction to (id,length). Bounded: depth of the exhaustive part; random part is sampling.',
    technique='TLA+ spec (Cache.tla) model-checked with TLC; model-transition replay + trace validation of cache.Cache by TLC'),
@@ -19,7 +20,8 @@ CHECKS = {
    text='Vise.tla is an interpreter specification of the VM run loop; ViseMC checks on model programs (all inputs at every HALT, all external results, '
         'duplicated selectors, wildcard anywhere, relative targets) the ghost invariants AtMostOneInputMove, FirstMatchWins, NoMatchGoesToCatch; every model '
         'history is replayed on the real engine and every real INCMP / dead-check iteration (model histories + random well-formed programs) is judged by TLC '
-        'against the spec step function applied to its logged pre-state.',
+        'against the spec step function applied to its logged pre-state.'
+        " Request-level: the input the VM routes is this request's input (C03_RoutedInput) and the invalid-input message reaches the page (C03_MessageShown).",
    design_ref='DESIGN.md section 6 (C03)',
    note='Trusted: TLC, the verif hook in vm.Run (two add-only lines), the recorder projection. Bounded: request depth of the exhaustive part, program families.',
    technique='TLA+ interpreter spec (Vise.tla) + TLC model checking + instruction-level trace validation of the real VM'),
@@ -27,7 +29,8 @@ CHECKS = {
    category='model_checking',
    text='ApplyTarget of Vise.tla transcribes the documented move table; TLC compares the navigation projection (path, index) of EVERY executed instruction '
         'of every recorded real run with the table applied to the logged pre-state (MOVE, INCMP, CATCH, all target kinds incl. failing ones); model programs '
-        'are explored exhaustively and their histories replayed on the real engine.',
+        'are explored exhaustively and their histories replayed on the real engine.'
+        " Request-level: the position after every request equals the specification's (C04_ReqNav), also with the engine options ResetOnEmptyInput / WithFirst (model program first).",
    design_ref='DESIGN.md section 6 (C04)',
    note='Trusted: TLC, verif hook, recorder projection of state.State. Whether a conditional move is taken is judged by C03/C06.',
    technique='TLA+ interpreter spec + TLC model checking + per-instruction trace validation'),
@@ -52,7 +55,8 @@ CHECKS = {
    text='Engine.tla splits the session into its persisted part (exported fields of State/Cache) and its volatile part; ViseEq is the product of a long-lived and a '
         'persisted copy fed the same inputs and external results, TLC checks ModeEquiv and SnapshotRoundTrip on model programs; on the real code every generated history is '
         'served twice (one long-lived engine vs fresh engine + Persister per request) over memory, filesystem and the Postgres driver on an in-process fake, and TLC '
-        'compares the transcripts and the re-read stored snapshot with the live session (ViseTrace C07_*).',
+        'compares the transcripts and the re-read stored snapshot with the live session (ViseTrace C07_*).'
+        ' Two sessions alternating through ONE reused Persister (WithFlush) must give the transcripts of fresh persisters (C07_Reuse*).',
    design_ref='DESIGN.md section 6 (C07)',
    note='Trusted: TLC, recorder, fakepg (in-process transactional fake of the pgx interface). gdbm cannot be built in this sandbox. Comparison up to the end of the session.',
    technique='TLA+ product model (ViseEq) checked with TLC + two-run trace validation of the real engine on three stores'),
@@ -61,7 +65,8 @@ CHECKS = {
    text='Vise/Engine.tla model every place the code indexes, slices or panics; ViseMC checks NoPanic, cache consistency and one-scope-per-level on model programs for all '
         'inputs (selectors, unknown, empty, refused, over-long) to a request bound; all those histories plus random well-formed programs with junk byte strings (0..300 bytes) '
         'run on the real engine under recover() and a watchdog, in long-lived and persisted mode over three stores; TLC judges every iteration and request (no panic, levels, '
-        'accounting, saved-and-loadable).',
+        'accounting, saved-and-loadable).'
+        ' Engine options (ResetOnEmptyInput, WithFirst incl. failing / blocking pre-VM checks) are part of the model programs and drawn for random programs.',
    design_ref='DESIGN.md section 6 (C08)',
    note='Trusted: TLC, recorder, generator of well-formed programs. Known findings (CROAK keeps path; maxlevel panic) are matched by specific predicates, everything else fails the check. Example applications: see evidence.',
    technique='TLA+ interpreter spec + TLC model checking + trace validation of recorded real runs (exhaustive small histories, random beyond)'),
@@ -85,7 +90,8 @@ CHECKS = {
    category='model_checking',
    text='ExecEnd / FlushReq / EngineReset / LoadEngine of Engine.tla classify graceful end vs termination; ViseMC (persisted mode) checks GracefulEndUnwinds, ClientFlagsKept, '
         'RestartAtRoot, TerminateBlocks on programs with both kinds of end node at depth 1-3 with histories running past the end; the same histories and random programs run on the '
-        'real engine (fresh engine + Persister per request, three stores) and TLC judges every request: outcome class, unwinding, restart at root, blocked requests produce nothing.',
+        'real engine (fresh engine + Persister per request, three stores) and TLC judges every request: outcome class, unwinding, restart at root, blocked requests produce nothing.'
+        " The value appended to the final output (read from the engine object) is compared with the specification's (C20_ExitValue); ResetOnEmptyInput and a pre-VM check are covered by model programs rempty / first.",
    design_ref='DESIGN.md section 6 (C20)',
    note='Trusted: TLC, recorder, fakepg. Engine configured without a first function. One known finding (blocked request renders after a failed terminating request).',
    technique='TLA+ spec + TLC model checking + request-level trace validation in persisted mode'),
@@ -94,7 +100,8 @@ CHECKS = {
    text='Render.tla transcribes the sizing/pagination algorithm and states the contract; TLC checks Fits exhaustively on the algorithm model over all configurations '
         'of the bound (sizes x row-length sequences x template x menu x browse) and emits every configuration; each is rendered by the real render.Page at every page index '
         'and TLC evaluates C01_Fits / NoSilentTruncation on the real outputs; at engine level every Flush of recorded sessions over programs with an output size is checked '
-        '(paged sinks, error prefix, exit value).',
+        '(paged sinks, error prefix, exit value).'
+        ' Engine level: second screens reached without a move (program inline), pagination walks through real engines.',
    design_ref='DESIGN.md section 6 (C01)',
    note='Trusted: TLC, the recorder that measures the real output. Bounded: configuration space of the exhaustive part; random larger configurations are sampling. One known finding (exit value appended after the size check).',
    technique='TLA+ spec (Render.tla) + TLC exhaustive enumeration + contract evaluation on real renders and real Flush outputs'),
@@ -102,7 +109,8 @@ CHECKS = {
    category='model_checking',
    text='The contract of C02 (Partition, StaticEverywhere, NavOffered, OfferedRenders, PastEndIsError, NoPanic) is stated over the family of pages of one configuration; TLC '
         'enumerates all configurations of the bound, checks the clauses the algorithm model satisfies, and every configuration is rendered by the real code for every page '
-        'index from 0 to beyond the end; TLC evaluates the contract on the real page families and compares the real grouping with the algorithm transcription.',
+        'index from 0 to beyond the end; TLC evaluates the contract on the real page families and compares the real grouping with the algorithm transcription.'
+        ' Engine level (walk-run): a client walks a paged node with the next selector, visits a second paged node and walks the first again, with one long-lived engine and with an engine per request; TLC judges Partition / Nav / Static / NoFail per walk.',
    design_ref='DESIGN.md section 6 (C02)',
    note='Trusted: TLC, the recorder\'s parsing of a page into static text / sink lines / menu lines. Two known findings (empty row at a page start dropped; next into an oversize page) are excused only where the real family equals the pinned algorithm transcription.',
    technique='TLA+ spec + TLC exhaustive enumeration + contract evaluation on real page families'),
@@ -128,7 +136,8 @@ CHECKS = {
    category='model_checking',
    text='WellFormedProgram / DecAll of Bytecode.tla give the verdict for any byte string; TLC enumerates all strings up to length 4/5 over a branch-covering alphabet, checks verdict consistency, '
         'and each string - plus every truncation and six corruptions per byte of generated valid programs - is given to ParseAll, ToString and Vm.Run under recover(); TLC recomputes the expected verdict per '
-        'recorded line: no panic, no success for malformed input, valid programs accepted, the VM refuses a malformed first instruction.',
+        'recorded line: no panic, no success for malformed input, valid programs accepted, the VM refuses a malformed first instruction.'
+        ' The hook logs the pending code at every instruction boundary of Vm.Run: a run that reports success never stood before a malformed instruction (C15_RunDecodes), also behind a matching / wildcard / non-matching INCMP.',
    design_ref='DESIGN.md section 6 (C15)',
    note='Trusted: TLC, recorder. No coverage-guided fuzzing (outside this technique family). NOOP handled as a named deviation.',
    technique='TLA+ spec + TLC exhaustive small strings + spec-judged mutation of valid programs on the real decoders'),
@@ -153,7 +162,8 @@ CHECKS = {
    category='model_checking',
    text='The storage key is modelled as a character sequence; TLC checks injectivity of the encoding over all (type, session, key) with adversarial strings up to length 2 (separators, path '
         'elements, type-prefix characters) and emits every colliding pair; each pair is replayed on the real backends as write-under-a / read-under-b, random adversarial histories are recorded, and '
-        'TLC checks on every real read / listing that the returned value was written under the same data type and session (unique values carry their provenance).',
+        'TLC checks on every real read / listing that the returned value was written under the same data type and session (unique values carry their provenance).'
+        ' Sessions working at the same time on one filesystem directory through their own handles read back only what they wrote (C11_ConcOwnData); listings of the Postgres driver (key-range scan on the fake) are judged for cross-type / cross-session entries.',
    design_ref='DESIGN.md section 6 (C11)',
    note='Trusted: TLC, recorder provenance table. Three known findings (dot ambiguity, fs path cleaning, fs legacy name) matched by predicates over the recorded history; any other cross-read fails the check.',
    technique='TLA+ spec + TLC injectivity enumeration + trace validation with value provenance on four real backends'),
@@ -171,7 +181,8 @@ CHECKS = {
    text='Sessions.tla interleaves two sessions at instruction granularity over shared immutable code with byte buffers modelled as Go slices (array, offset, length, capacity), which makes writes '
         'through aliased spare capacity visible; TLC checks NonInterference and NoSharedWrite over all interleavings and emits every complete schedule; each schedule is reproduced exactly on the '
         'real VM (the run-loop hook is the scheduler gate) and compared with solo runs; free-running randomized sessions on 2..16 goroutines over one shared resource (slices with and without spare '
-        'capacity) run under the Go race detector with transcript comparison and a check that shared data is unmodified.',
+        'capacity) run under the Go race detector with transcript comparison and a check that shared data is unmodified.'
+        " FsSaveConc.tla: the file operations of two real saves (strace) run as two processes over a directory with names, inodes and open files; TLC explores every interleaving (each record ends as its own session's complete state). Free-running mode F: own fs store handles on one shared directory.",
    design_ref='DESIGN.md section 6 (C19)',
    note='Trusted: TLC, the Go race detector (decides the "no data race" half), the hook gate. The model covers aliasing of the code buffer; other shared state is searched for by the race detector only.',
    technique='TLA+ interleaving/aliasing model + TLC schedules replayed deterministically + race-detector runs'),
